@@ -71,7 +71,7 @@ pub fn random_bytes(rng: &mut Rng, maxsyms: usize) -> Vec<u8> {
 /// a text made of `n` lines drawn from a small pool (so that diffs have equal lines),
 /// with mixed terminators and possibly a missing final newline
 pub fn random_lines(rng: &mut Rng, n: usize, pool: usize) -> String {
-    let bodies = ["a", "b", "", "c c", "\u{e9}", "x y z", "-", "+", " ", "@@", "\\", "d\u{301}"];
+    let bodies = ["a", "b", "", "c c", "\u{e9}", "x y z", "-", "+", " ", "@@", "\\", "d\u{301}", "e ", "f\t"];
     let terms = ["\n", "\n", "\n", "\r\n", "\r"];
     let mut s = String::new();
     for i in 0..n {
